@@ -4,7 +4,7 @@
    positive reserve.  The defects (stale iterator after a reallocating insert, reserve 0, the
    hash-array constructor, the explicit constructor with a size) are exhibited as witnesses. *)
 From Coq Require Import Arith List Bool Lia ZArith.
-From F8 Require Import C12.Bisect C12.BisectProofs C12.Tables C12.Presorted C12.Spec_C12.
+From F8 Require Import C12.Bisect C12.BisectProofs C12.Tables C12.Presorted C12.Spec_C12 C12.TablesProofs.
 Import ListNotations.
 
 (* ------------------------------------------------------------------ the loops read only their range *)
@@ -309,11 +309,18 @@ Proof.
   - apply Nat.ltb_ge in E. f_equal. symmetry. apply nth_error_None. lia.
 Qed.
 
-Lemma calc_reserve_pos sz res : sz <> 0%nat -> (1 <= calc_reserve sz res)%nat.
+Lemma calc_reserve_pos' sz res : (1 <= calc_reserve sz res)%nat.
 Proof.
-  intros H. unfold calc_reserve. destruct (sz =? 0)%nat eqn:E; [apply Nat.eqb_eq in E; lia|].
-  destruct (sz * res / 100 =? 0)%nat eqn:E2; [lia|]. apply Nat.eqb_neq in E2. lia.
+  unfold calc_reserve. destruct (sz =? 0)%nat.
+  - destruct (res =? 0)%nat eqn:E; [lia|]. apply Nat.eqb_neq in E. lia.
+  - destruct (sz * res / 100 =? 0)%nat eqn:E2; [lia|]. apply Nat.eqb_neq in E2. lia.
 Qed.
+
+Lemma calc_reserve_pos sz res : sz <> 0%nat -> (1 <= calc_reserve sz res)%nat.
+Proof. intros _. apply calc_reserve_pos'. Qed.
+
+Lemma detach_wf s : p_hash s = None -> detach s = s.
+Proof. destruct s as [a z r v h]. cbn. intros ->. reflexivity. Qed.
 
 (* ---- insert ---- *)
 Lemma insert_gen_wf fixed s e :
@@ -428,7 +435,8 @@ Lemma insert_wf s e :
           r = RInsert true (Some (sl_count_lt (abs s) (fst e))) false).
 Proof.
   intros Hwf. destruct (insert_gen_wf true s e Hwf) as [s' [r [Hi [Hwf' [Hres H]]]]].
-  exists s', r. split; [exact Hi|]. split; [exact Hwf'|]. split; [exact Hres|].
+  exists s', r. split; [unfold ps_insert; rewrite (detach_wf s (proj1 Hwf)); exact Hi|].
+  split; [exact Hwf'|]. split; [exact Hres|].
   destruct (sl_mem (abs s) (fst e)); [exact H|].
   destruct H as [Habs [Hsz [stale [Hr Hiff]]]]. split; [exact Habs|]. split; [exact Hsz|].
   destruct stale; [|exact Hr]. destruct (proj1 Hiff eq_refl) as [C _]. discriminate.
@@ -509,48 +517,331 @@ Proof.
     + constructor; [|exact Hall]. cbn. destruct Hwf1 as [_ [Hle _]]. exact Hle.
 Qed.
 
-(* ---- constructors establish the invariant ---- *)
+(* ---- constructors establish the invariant (any reserve, 0 included) ---- *)
 Lemma init_array_wf tab reserve :
-  keys_sorted tab = true -> (tab <> [] \/ (0 < reserve)%nat) -> ps_wf (ps_init_array tab reserve) /\ abs (ps_init_array tab reserve) = tab.
+  keys_sorted tab = true -> ps_wf (ps_init_array tab reserve) /\ abs (ps_init_array tab reserve) = tab.
 Proof.
-  intros Hs Hne.
+  intros Hs.
   assert (abs (ps_init_array tab reserve) = tab) as Habs.
   { unfold abs, ps_init_array; cbn [p_sz p_arr]. rewrite firstn_app, Nat.sub_diag, firstn_all, firstn_O, app_nil_r. reflexivity. }
   split; [|exact Habs]. unfold ps_wf. rewrite Habs. unfold ps_init_array; cbn [p_hash p_sz p_rsz p_arr].
+  pose proof (calc_reserve_pos' (length tab) reserve).
   repeat split; try lia; try assumption.
-  - destruct (Nat.eq_dec (length tab) 0) as [E|E].
-    + rewrite E. cbn. destruct Hne as [C|C]; [destruct tab; [congruence | cbn in E; lia] | lia].
-    + pose proof (calc_reserve_pos (length tab) reserve E). lia.
-  - right. rewrite app_length, repeat_length. lia.
+  right. rewrite app_length, repeat_length. lia.
 Qed.
 
-Lemma init_empty_wf reserve : (0 < reserve)%nat -> ps_wf (ps_init_explicit 0 reserve) /\ abs (ps_init_explicit 0 reserve) = [].
+Lemma init_explicit_wf sz reserve : ps_wf (ps_init_explicit sz reserve) /\ abs (ps_init_explicit sz reserve) = [].
 Proof.
-  intros H. split; [|reflexivity]. unfold ps_wf, ps_init_explicit, abs; cbn.
-  repeat split; try lia.
+  split; [|reflexivity]. unfold ps_wf, ps_init_explicit, abs; cbn [p_hash p_sz p_rsz p_arr firstn].
+  pose proof (calc_reserve_pos' sz reserve). repeat split; try lia.
 Qed.
 
 Theorem presorted_refines_lemma tab reserve ops :
-  keys_sorted tab = true -> (tab <> [] \/ (0 < reserve)%nat) ->
+  keys_sorted tab = true ->
   exists s' rs, ps_run (ps_init_array tab reserve) ops = Some (s', rs) /\
     map fst rs = spec_run tab ops /\
     Forall (fun x => (snd (fst x) <= snd x)%nat) rs.
 Proof.
-  intros Hs Hne. destruct (init_array_wf tab reserve Hs Hne) as [Hwf Habs].
+  intros Hs. destruct (init_array_wf tab reserve Hs) as [Hwf Habs].
   destruct (ps_run_refines ops _ Hwf) as [s' [rs [Hrun [_ [Hmap Hall]]]]].
   exists s', rs. split; [exact Hrun|]. rewrite Habs in Hmap. split; assumption.
 Qed.
 
-Theorem presorted_empty_refines_lemma reserve ops :
-  (0 < reserve)%nat ->
-  exists s' rs, ps_run (ps_init_explicit 0 reserve) ops = Some (s', rs) /\
+Theorem presorted_explicit_refines_lemma sz reserve ops :
+  exists s' rs, ps_run (ps_init_explicit sz reserve) ops = Some (s', rs) /\
     map fst rs = spec_run [] ops /\
     Forall (fun x => (snd (fst x) <= snd x)%nat) rs.
 Proof.
-  intros H. destruct (init_empty_wf reserve H) as [Hwf Habs].
+  destruct (init_explicit_wf sz reserve) as [Hwf Habs].
   destruct (ps_run_refines ops _ Hwf) as [s' [rs [Hrun [_ [Hmap Hall]]]]].
   exists s', rs. split; [exact Hrun|]. rewrite Habs in Hmap. split; assumption.
 Qed.
+
+(* ------------------------------------------------------------------ sets built from a hash array *)
+(* The hash array indexes the initial layout; it is consulted by find until the first insert detaches
+   it.  Constructor precondition: the table is non-empty and strictly sorted by (non-negative) key --
+   what the generated trait tables satisfy (evaluated on every dumped table). *)
+Inductive hmode := HDetached | HIntact | HCleared.
+
+Definition hash_intact (s : pset) : Prop :=
+  exists tab extra, p_hash s = Some (map fst tab) /\ p_arr s = tab ++ extra /\ p_sz s = length tab /\
+    length (p_arr s) = p_rsz s /\ (p_sz s < p_rsz s)%nat /\
+    keys_sorted tab = true /\ nonneg_keys (map fst tab) = true /\ tab <> [].
+
+Definition inv (s : pset) (m : hmode) : Prop :=
+  match m with
+  | HDetached => ps_wf s
+  | HIntact => hash_intact s
+  | HCleared => p_sz s = 0%nat /\ (0 < p_rsz s)%nat
+  end.
+
+(* the histories for which a hash-built set answers like the sorted list: while the hash array is
+   attached, find(key, answer) only for keys that are present, and no lookup between a clear() and
+   the next insert.  (The code still gets the excluded cases wrong, see the _refuted witnesses.) *)
+Fixpoint hist_ok (m : hmode) (L : list elem) (ops : list op) : bool :=
+  match ops with
+  | [] => true
+  | o :: t =>
+    match m with
+    | HDetached => true
+    | HIntact =>
+      match o with
+      | OFind _ | OAt _ => hist_ok m L t
+      | OFindA k => sl_mem L k && hist_ok m L t
+      | OInsert _ => true
+      | OInsertRange [] => hist_ok m L t
+      | OInsertRange (_ :: _) => true
+      | OClear => hist_ok HCleared [] t
+      end
+    | HCleared =>
+      match o with
+      | OAt _ | OClear | OInsertRange [] => hist_ok HCleared [] t
+      | OInsert _ | OInsertRange (_ :: _) => true
+      | OFind _ | OFindA _ => false
+      end
+    end
+  end.
+
+Lemma ftha_find_app keys extra k :
+  keys <> [] -> ftha_find keys (keys ++ extra) k = ftha_find keys keys k.
+Proof.
+  intros Hne. unfold ftha_find. destruct (direct_size keys); [|reflexivity].
+  destruct (k <? z); [|reflexivity].
+  assert (ftha_cell keys k < length keys)%nat as Hj.
+  { unfold ftha_cell. destruct (last_write keys k 0 None) as [j|] eqn:E.
+    - apply last_write_sound in E. destruct E as [C|[_ E]]; [discriminate|].
+      rewrite Nat.sub_0_r in E. apply nth_error_Some. congruence.
+    - destruct keys; [congruence | cbn; lia]. }
+  rewrite nth_error_app1 by exact Hj. reflexivity.
+Qed.
+
+Lemma exact_index_sl L k r :
+  (forall i, r = Some i <-> nth_error (map fst L) i = Some k) -> sl_index L k 0 = r.
+Proof.
+  intros Hiff. pose proof (sl_index_spec L k 0%nat) as H. destruct (sl_index L k 0) as [m|].
+  - destruct H as [_ [Hm _]]. rewrite Nat.sub_0_r in Hm. symmetry. apply Hiff. exact Hm.
+  - destruct r as [i|]; [|reflexivity]. exfalso. apply H.
+    eapply nth_error_In. apply Hiff. reflexivity.
+Qed.
+
+Lemma abs_intact s : hash_intact s -> exists tab, abs s = tab /\ p_hash s = Some (map fst tab) /\
+  keys_sorted tab = true /\ nonneg_keys (map fst tab) = true /\ tab <> [] /\ length tab = p_sz s /\
+  exists extra, p_arr s = tab ++ extra.
+Proof.
+  intros [tab [extra [Hh [Ha [Hz [Hl [Hlt [Hs [Hn Hne]]]]]]]]]. exists tab. split.
+  - unfold abs. rewrite Ha, Hz, firstn_app, Nat.sub_diag, firstn_all, firstn_O, app_nil_r. reflexivity.
+  - repeat split; try assumption; [symmetry; assumption | exists extra; assumption].
+Qed.
+
+Lemma hash_lookup_intact s k :
+  hash_intact s ->
+  exists r, ftha_find (map fst (abs s)) (map fst (p_arr s)) k = Some r /\
+            (forall i, r = Some i <-> nth_error (map fst (abs s)) i = Some k) /\
+            p_hash s = Some (map fst (abs s)).
+Proof.
+  intros Hi. destruct (abs_intact s Hi) as [tab [Habs [Hh [Hs [Hn [Hne [Hl [extra Ha]]]]]]]].
+  rewrite Habs, Ha, map_app.
+  assert (map fst tab <> []) as Hne' by (destruct tab; [congruence | discriminate]).
+  rewrite ftha_find_app by exact Hne'.
+  destruct (ftha_find_exact (map fst tab) k Hs Hn Hne') as [r [Hr Hiff]].
+  exists r. split; [exact Hr|]. split; [exact Hiff | exact Hh].
+Qed.
+
+Lemma find_intact s k : hash_intact s -> ps_find s k = Some (sl_index (abs s) k 0).
+Proof.
+  intros Hi. destruct (hash_lookup_intact s k Hi) as [r [Hr [Hiff Hh]]].
+  unfold ps_find. rewrite Hh, Hr. rewrite (exact_index_sl (abs s) k r Hiff).
+  destruct r as [j|]; [|reflexivity].
+  destruct (abs_intact s Hi) as [tab [Habs [_ [_ [_ [_ [Hl _]]]]]]].
+  assert (j < p_sz s)%nat.
+  { rewrite <- Hl, <- Habs, <- (map_length fst). apply nth_error_Some.
+    rewrite (proj1 (Hiff j) eq_refl). discriminate. }
+  assert ((j =? p_sz s)%nat = false) as -> by (apply Nat.eqb_neq; lia). reflexivity.
+Qed.
+
+Lemma find_answer_intact s k :
+  hash_intact s -> sl_mem (abs s) k = true ->
+  ps_find_answer s (key_elem k) = Some (Some (sl_count_lt (abs s) k), true).
+Proof.
+  intros Hi Hm. destruct (hash_lookup_intact s k Hi) as [r [Hr [Hiff Hh]]].
+  unfold ps_find_answer. cbn [key_elem fst]. rewrite Hh, Hr.
+  destruct (abs_intact s Hi) as [tab [Habs [_ [Hs _]]]]. rewrite <- Habs in Hs.
+  pose proof (exact_index_sl (abs s) k r Hiff) as Hsl.
+  rewrite (sl_index_sorted (abs s) k Hs), Hm in Hsl. subst r. reflexivity.
+Qed.
+
+Lemma at_len s i : length (abs s) = p_sz s -> ps_at s i = Some (nth_error (abs s) i).
+Proof.
+  intros Hl. unfold ps_at. destruct (i <? p_sz s)%nat eqn:E.
+  - apply Nat.ltb_lt in E. rewrite (arr_split s), nth_error_app1 by lia.
+    destruct (nth_error (abs s) i) eqn:En; [reflexivity|]. apply nth_error_None in En. lia.
+  - apply Nat.ltb_ge in E. f_equal. symmetry. apply nth_error_None. lia.
+Qed.
+
+Lemma detach_intact s : hash_intact s -> ps_wf (detach s) /\ abs (detach s) = abs s.
+Proof.
+  intros Hi. destruct (abs_intact s Hi) as [tab [Habs [_ [Hs _]]]].
+  destruct Hi as [tab' [extra [Hh [Ha [Hz [Hl [Hlt _]]]]]]].
+  split; [|reflexivity]. unfold ps_wf, detach, abs; cbn [p_hash p_sz p_rsz p_arr].
+  fold (abs s). rewrite Habs. repeat split; try lia; try assumption.
+Qed.
+
+Lemma detach_cleared s : p_sz s = 0%nat -> (0 < p_rsz s)%nat -> ps_wf (detach s) /\ abs (detach s) = [].
+Proof.
+  intros Hz Hr. unfold ps_wf, detach, abs; cbn [p_hash p_sz p_rsz p_arr]. rewrite Hz. cbn [firstn].
+  repeat split; try lia.
+Qed.
+
+Lemma ps_insert_detach s e : ps_insert s e = ps_insert (detach s) e.
+Proof. reflexivity. Qed.
+
+Lemma ps_insert_range_detach s e t : ps_insert_range s (e :: t) = ps_insert_range (detach s) (e :: t).
+Proof. reflexivity. Qed.
+
+(* one step followed by a refined rest *)
+Lemma run_cons s o t s1 r L1 :
+  ps_step s o = Some (s1, r) -> spec_step (abs s) o = (L1, r) ->
+  length L1 = p_sz s1 -> (p_sz s1 <= p_rsz s1)%nat ->
+  (exists s' rs, ps_run s1 t = Some (s', rs) /\ map fst rs = spec_run L1 t /\
+                 Forall (fun x => (snd (fst x) <= snd x)%nat) rs) ->
+  exists s' rs, ps_run s (o :: t) = Some (s', rs) /\ map fst rs = spec_run (abs s) (o :: t) /\
+                Forall (fun x => (snd (fst x) <= snd x)%nat) rs.
+Proof.
+  intros Hstep Hspec Hlen Hle [s' [rs [Hrun [Hmap Hall]]]].
+  cbn [ps_run spec_run]. rewrite Hstep, Hrun, Hspec.
+  eexists _, _. split; [reflexivity|]. split.
+  - cbn [map fst snd]. rewrite Hmap, Hlen. reflexivity.
+  - constructor; [cbn; exact Hle | exact Hall].
+Qed.
+
+Lemma run_detached ops s :
+  ps_wf s ->
+  exists s' rs, ps_run s ops = Some (s', rs) /\ map fst rs = spec_run (abs s) ops /\
+                Forall (fun x => (snd (fst x) <= snd x)%nat) rs.
+Proof.
+  intros Hwf. destruct (ps_run_refines ops s Hwf) as [s' [rs [H1 [_ [H2 H3]]]]].
+  exists s', rs. repeat split; assumption.
+Qed.
+
+(* a step that detaches the hash array (insert / non-empty range insert) and everything after it *)
+Lemma run_after_detach s o t :
+  ps_wf (detach s) -> abs (detach s) = abs s ->
+  ps_step s o = ps_step (detach s) o ->
+  exists s' rs, ps_run s (o :: t) = Some (s', rs) /\ map fst rs = spec_run (abs s) (o :: t) /\
+                Forall (fun x => (snd (fst x) <= snd x)%nat) rs.
+Proof.
+  intros Hwf Habs Hstep. destruct (run_detached (o :: t) (detach s) Hwf) as [s' [rs [Hrun [Hmap Hall]]]].
+  exists s', rs. split; [|split; [rewrite <- Habs; exact Hmap | exact Hall]].
+  cbn [ps_run] in *. rewrite Hstep. exact Hrun.
+Qed.
+
+Theorem ps_run_refines_gen : forall ops s m,
+  inv s m -> hist_ok m (abs s) ops = true ->
+  exists s' rs, ps_run s ops = Some (s', rs) /\ map fst rs = spec_run (abs s) ops /\
+                Forall (fun x => (snd (fst x) <= snd x)%nat) rs.
+Proof.
+  induction ops as [|o t IH]; intros s m Hinv Hok.
+  - exists s, []. split; [reflexivity|]. split; [reflexivity | constructor].
+  - destruct m; cbn [inv] in Hinv.
+    + apply run_detached. exact Hinv.
+    + (* hash array attached, nothing inserted or cleared yet *)
+      destruct (abs_intact s Hinv) as [tab [Habs [_ [_ [_ [_ [Hl _]]]]]]].
+      assert (length (abs s) = p_sz s) as Hlen by (rewrite Habs; exact Hl).
+      assert (p_sz s < p_rsz s)%nat as Hlt.
+      { destruct Hinv as [? [? [_ [_ [_ [_ [H _]]]]]]]. exact H. }
+      assert (p_sz s <= p_rsz s)%nat as Hle by lia.
+      destruct (detach_intact s Hinv) as [Hwfd Habsd].
+      destruct o as [k|k|i|e|es|]; cbn [hist_ok] in Hok.
+      * eapply (run_cons s (OFind k) t s); try eassumption.
+        -- cbn [ps_step]. rewrite (find_intact s k Hinv). reflexivity.
+        -- reflexivity.
+        -- apply (IH s HIntact Hinv Hok).
+      * apply andb_true_iff in Hok. destruct Hok as [Hm Hok].
+        eapply (run_cons s (OFindA k) t s); try eassumption.
+        -- cbn [ps_step]. rewrite (find_answer_intact s k Hinv Hm). reflexivity.
+        -- cbn [spec_step]. rewrite Hm. reflexivity.
+        -- apply (IH s HIntact Hinv Hok).
+      * eapply (run_cons s (OAt i) t s); try eassumption.
+        -- cbn [ps_step]. rewrite (at_len s i Hlen). reflexivity.
+        -- reflexivity.
+        -- apply (IH s HIntact Hinv Hok).
+      * apply run_after_detach; [assumption | assumption | reflexivity].
+      * destruct es as [|e es].
+        -- eapply (run_cons s (OInsertRange []) t s); try eassumption; try reflexivity.
+           apply (IH s HIntact Hinv Hok).
+        -- apply run_after_detach; [assumption | assumption | reflexivity].
+      * eapply (run_cons s OClear t (upd s (p_arr s) 0 (p_rsz s)) RClear []); try reflexivity.
+        -- cbn. lia.
+        -- apply (IH (upd s (p_arr s) 0 (p_rsz s)) HCleared).
+           ++ cbn. split; [reflexivity | lia].
+           ++ exact Hok.
+    + (* cleared while the hash array was attached *)
+      destruct Hinv as [Hz Hr].
+      assert (abs s = []) as Habs by (unfold abs; rewrite Hz; reflexivity).
+      destruct (detach_cleared s Hz Hr) as [Hwfd Habsd].
+      destruct o as [k|k|i|e|es|]; cbn [hist_ok] in Hok; try discriminate.
+      * eapply (run_cons s (OAt i) t s (RAt None) []).
+        -- cbn [ps_step]. unfold ps_at. rewrite Hz. reflexivity.
+        -- cbn [spec_step]. rewrite Habs. destruct i; reflexivity.
+        -- cbn. lia.
+        -- lia.
+        -- rewrite <- Habs. apply (IH s HCleared); [split; assumption | rewrite Habs; exact Hok].
+      * apply run_after_detach; [assumption | rewrite Habsd, Habs; reflexivity | reflexivity].
+      * destruct es as [|e es].
+        -- eapply (run_cons s (OInsertRange []) t s RRange []).
+           ++ reflexivity.
+           ++ cbn [spec_step sl_insert_range]. rewrite Habs. reflexivity.
+           ++ cbn. lia.
+           ++ lia.
+           ++ rewrite <- Habs. apply (IH s HCleared); [split; assumption | rewrite Habs; exact Hok].
+        -- apply run_after_detach; [assumption | rewrite Habsd, Habs; reflexivity | reflexivity].
+      * eapply (run_cons s OClear t (upd s (p_arr s) 0 (p_rsz s)) RClear []); try reflexivity.
+        -- cbn. lia.
+        -- apply (IH (upd s (p_arr s) 0 (p_rsz s)) HCleared).
+           ++ cbn. split; [reflexivity | lia].
+           ++ exact Hok.
+Qed.
+
+Lemma init_hash_intact tab :
+  keys_sorted tab = true -> nonneg_keys (map fst tab) = true -> tab <> [] ->
+  hash_intact (ps_init_hash tab) /\ abs (ps_init_hash tab) = tab.
+Proof.
+  intros Hs Hn Hne. pose proof (calc_reserve_pos' (length tab) 0) as Hc.
+  assert (hash_intact (ps_init_hash tab)) as Hi.
+  { exists tab, (repeat junk (length tab + calc_reserve (length tab) 0 - length tab)).
+    unfold ps_init_hash; cbn [p_hash p_arr p_sz p_rsz].
+    repeat split; try assumption; try reflexivity; [|lia].
+    rewrite app_length, repeat_length. lia. }
+  split; [exact Hi|]. destruct (abs_intact _ Hi) as [tab' [Habs [Hh _]]].
+  unfold abs, ps_init_hash; cbn [p_sz p_arr].
+  rewrite firstn_app, Nat.sub_diag, firstn_all, firstn_O, app_nil_r. reflexivity.
+Qed.
+
+(* a set built by the hash-array constructor (every message's field-trait set) *)
+Theorem presorted_hash_refines_lemma tab ops :
+  keys_sorted tab = true -> nonneg_keys (map fst tab) = true -> tab <> [] ->
+  hist_ok HIntact tab ops = true ->
+  exists s' rs, ps_run (ps_init_hash tab) ops = Some (s', rs) /\
+    map fst rs = spec_run tab ops /\
+    Forall (fun x => (snd (fst x) <= snd x)%nat) rs.
+Proof.
+  intros Hs Hn Hne Hok. destruct (init_hash_intact tab Hs Hn Hne) as [Hi Habs].
+  destruct (ps_run_refines_gen ops (ps_init_hash tab) HIntact Hi) as [s' [rs [H1 [H2 H3]]]].
+  - rewrite Habs. exact Hok.
+  - exists s', rs. rewrite Habs in H2. repeat split; assumption.
+Qed.
+
+(* what the repairs do not cover: while the hash array is attached, find(key, answer) gives a null
+   position for an absent key, and after clear() the stale hash array still finds the cleared keys *)
+Lemma hash_residual_refuted_lemma :
+  let s := ps_init_hash [(1, 0); (5, 0); (9, 0)] in
+  ps_step s (OFindA 2) = Some (s, RFindA None false) /\
+  fst (spec_step [(1, 0); (5, 0); (9, 0)] (OFindA 2)) = [(1, 0); (5, 0); (9, 0)] /\
+  snd (spec_step [(1, 0); (5, 0); (9, 0)] (OFindA 2)) = RFindA (Some 1%nat) false /\
+  (exists s1 rs, ps_run s [OClear; OFind 5] = Some (s1, rs) /\
+                 map fst rs = [(RClear, 0%nat); (RFind (Some 1%nat), 0%nat)] /\
+                 spec_run [(1, 0); (5, 0); (9, 0)] [OClear; OFind 5] = [(RClear, 0%nat); (RFind None, 0%nat)]).
+Proof. cbn zeta. repeat split; try reflexivity. eexists _, _. repeat split; vm_compute; reflexivity. Qed.
 
 (* ---- the oracle accepts the model's observations (no escape clause) ---- *)
 Lemma onat_eqb_refl a : onat_eqb a a = true.
@@ -569,10 +860,10 @@ Lemma outs_eqb_refl l : outs_eqb l l = true.
 Proof. induction l as [|[o n] l IH]; cbn; [reflexivity|]. rewrite out_eqb_refl, Nat.eqb_refl, IH. reflexivity. Qed.
 
 Theorem presorted_oracle_lemma tab reserve ops :
-  keys_sorted tab = true -> (tab <> [] \/ (0 < reserve)%nat) ->
+  keys_sorted tab = true ->
   exists s' rs, ps_run (ps_init_array tab reserve) ops = Some (s', rs) /\ c12_ps_ok tab ops (map fst rs) = true.
 Proof.
-  intros Hs Hne. destruct (presorted_refines_lemma tab reserve ops Hs Hne) as [s' [rs [Hrun [Hmap _]]]].
+  intros Hs. destruct (presorted_refines_lemma tab reserve ops Hs) as [s' [rs [Hrun [Hmap _]]]].
   exists s', rs. split; [exact Hrun|]. unfold c12_ps_ok. rewrite Hmap. apply outs_eqb_refl.
 Qed.
 
@@ -613,16 +904,21 @@ Proof.
   - eexists. split; vm_compute; reflexivity.
 Qed.
 
-Lemma reserve0_refuted_lemma : ps_run (ps_init_explicit 0 0) [OInsert (1, 0)] = None.
-Proof. reflexivity. Qed.
+(* the constructors / insert as they were before 432f45d, b713cdd, a311e58 *)
+Lemma reserve0_orig_refuted_lemma :
+  ps_insert (ps_init_explicit_orig 0 0) (1, 0) = None /\
+  (exists s', ps_insert (ps_init_explicit 0 0) (1, 0) = Some (s', RInsert true (Some 0%nat) false)).
+Proof. split; [reflexivity | eexists; vm_compute; reflexivity]. Qed.
 
-Lemma hash_insert_refuted_lemma :
-  ps_run (ps_init_hash [(1, 0); (5, 0)]) [OFind 5; OInsert (5, 1)] <> None /\
-  ps_run (ps_init_hash [(1, 0); (5, 0)]) [OInsert (2, 0)] = None.
-Proof. split; [vm_compute; discriminate | reflexivity]. Qed.
+Lemma hash_insert_orig_refuted_lemma :
+  ps_insert_gen true (ps_init_hash_orig [(1, 0); (5, 0)]) (2, 0) = None /\
+  (exists s', ps_insert (ps_init_hash [(1, 0); (5, 0)]) (2, 0) = Some (s', RInsert true (Some 1%nat) false) /\
+              abs s' = [(1, 0); (2, 0); (5, 0)]).
+Proof. split; [reflexivity | eexists; split; vm_compute; reflexivity]. Qed.
 
-Lemma explicit_size_refuted_lemma : ps_run (ps_init_explicit 3 30) [OFind 1] = None.
-Proof. reflexivity. Qed.
+Lemma explicit_size_orig_refuted_lemma :
+  ps_find (ps_init_explicit_orig 3 30) 1 = None /\ ps_find (ps_init_explicit 3 30) 1 = Some None.
+Proof. split; reflexivity. Qed.
 
 Lemma presorted_nonvacuous_lemma :
   let tab := [(1, 10); (4, 40); (9, 90)] in
